@@ -375,7 +375,13 @@ func gItems(t *tokGen, n, budget int, failMask uint64, failAll bool, fbOK func(i
 			case fails && budget == 1:
 				it.Exec = append(it.Exec, "!"+strconv.Itoa(t.err()))
 			default:
-				it.Exec = append(it.Exec, t.tok())
+				if execS == "res" && t.r.chance(7) {
+					// the exec function returns an error Result with a nil error: a value, not a failure —
+					// it fills the slot but must not raise the stop flag
+					it.Exec = append(it.Exec, "xu"+strconv.Itoa(t.err()))
+				} else {
+					it.Exec = append(it.Exec, t.tok())
+				}
 			}
 		}
 		if fbOK(i) {
